@@ -499,3 +499,133 @@ Proof.
   intros He Hp Hpl. rewrite sextract_files_as_extract.
   exact (extract_plain_archive umask root t0 lg0 (map strip_mode items) He (pairs_strip _ Hp) (plain_strip _ Hpl)).
 Qed.
+
+(* ---------- the streaming extractor's second phase: one chmod per central record *)
+Definition mode_of (i : item) : option N := match i with IFile _ _ mo | IDir _ mo => mo end.
+Definition meta_of (i : item) : bytes * option N := (x_name (entry_of i), mode_of i).
+
+Lemma pfx_refl (a : list bytes) : pfx a a.
+Proof. exists (length a). now rewrite firstn_all. Qed.
+
+(* chmod changes modes only: two trees of the same kind (same objects, same file contents) *)
+Definition same_kind (t t' : fs) : Prop :=
+  forall l, match lookup t l, lookup t' l with
+            | Some (NFile c _), Some (NFile c' _) => c = c'
+            | Some (NDir _), Some (NDir _) => True
+            | None, None => True
+            | _, _ => False
+            end.
+
+Lemma same_kind_update_file t l c m m' : lookup t l = Some (NFile c m) -> same_kind t (update t l (NFile c m')).
+Proof.
+  intros H l0. destruct (loc_eqb l l0) eqn:E.
+  - apply loc_eqb_eq in E. subst l0. rewrite lookup_update_same, H. reflexivity.
+  - rewrite lookup_update_other by (intro X; rewrite X, loc_eqb_refl in E; discriminate).
+    destruct (lookup t l0) as [[?|? ?]|]; auto.
+Qed.
+Lemma same_kind_update_dir t l m m' : lookup t l = Some (NDir m) -> same_kind t (update t l (NDir m')).
+Proof.
+  intros H l0. destruct (loc_eqb l l0) eqn:E.
+  - apply loc_eqb_eq in E. subst l0. rewrite lookup_update_same, H. exact Logic.I.
+  - rewrite lookup_update_other by (intro X; rewrite X, loc_eqb_refl in E; discriminate).
+    destruct (lookup t l0) as [[?|? ?]|]; auto.
+Qed.
+
+(* the shape claims (no mode recorded in the items) survive *)
+Lemma shape_same_kind root t t' items : same_kind t t' -> tree_ok root t (map strip_mode items) -> tree_ok root t' (map strip_mode items).
+Proof.
+  intros Hs [H1 H2 H3]. constructor.
+  - intros ns c mo Hi. assert (mo = None) as -> by (apply in_map_iff in Hi as (z & Ez & _); destruct z; cbn in Ez; congruence).
+    destruct (H1 _ _ _ Hi) as (m & Hl & _). specialize (Hs (root ++ ns)). rewrite Hl in Hs.
+    destruct (lookup t' (root ++ ns)) as [[?|c' m']|]; try contradiction. subst c'. exists m'. split; [reflexivity|discriminate].
+  - intros i k Hi Hk Hc. destruct (H2 i k Hi Hk Hc) as [m Hm]. specialize (Hs (root ++ firstn k (path_of i))). rewrite Hm in Hs.
+    unfold is_dir. destruct (lookup t' (root ++ firstn k (path_of i))) as [[m'|? ?]|]; try contradiction. now exists m'.
+  - intros rel Hrel Hl. apply (H3 rel Hrel). specialize (Hs (root ++ rel)). intro X. rewrite X in Hs.
+    destruct (lookup t' (root ++ rel)); [contradiction|]. now apply Hl.
+Qed.
+
+Definition modes_done (root : loc) (t : fs) (done : list item) : Prop :=
+  forall ns c md, In (IFile ns c (Some md)) done -> exists cc, lookup t (root ++ ns) = Some (NFile cc (N.land md 4095)).
+
+Lemma in_strip i items : In i items -> In (strip_mode i) (map strip_mode items).
+Proof. apply in_map. Qed.
+
+Lemma smeta_step root t lg items done x :
+  tree_ok root t (map strip_mode items) -> In x items -> plain (path_of x) ->
+  modes_done root t done -> (forall d, In d done -> compat d x) ->
+  exists t' lg', sextract_meta root (t, lg) (fst (meta_of x)) (snd (meta_of x)) = ((t', lg'), XOk) /\
+                 tree_ok root t' (map strip_mode items) /\ modes_done root t' (done ++ [x]).
+Proof.
+  intros Hok Hin Hp Hm Hc. pose proof Hp as [Hne Hg]. pose proof (plain_goodb _ Hg) as Hgb.
+  pose proof (in_strip _ _ Hin) as Hin_x.
+  unfold sextract_meta, meta_of. cbn [fst snd].
+  destruct x as [ns c mo|ns mo]; cbn [entry_of file_entry dir_entry x_name mode_of path_of strip_mode] in *.
+  - rewrite (enclosed_plain _ Hp), (split_join_good _ Hne Hgb).
+    destruct mo as [md|].
+    + destruct (exists_last Hne) as (pre & last & ->).
+      destruct (tk_files _ _ _ Hok _ _ _ Hin_x) as (m0 & Hl0 & _).
+      assert (Hd : forall k, (1 <= k <= length pre)%nat -> is_dir t (root ++ firstn k pre)).
+      { intros k Hk. rewrite <- (firstn_app_le pre [last] k) by lia.
+        apply (tk_dirs _ _ _ Hok (IFile (pre ++ [last]) c None) k Hin_x); cbn [path_of]; rewrite app_length; cbn [length]; [lia|left; lia]. }
+      rewrite (chmod_file_spec t root pre last md lg c m0 Hgb Hd Hl0). cbn [fst snd].
+      eexists. eexists. split; [reflexivity|]. split.
+      * exact (shape_same_kind root _ _ items (same_kind_update_file t _ c m0 _ Hl0) Hok).
+      * intros ns' c' md' Hi. apply in_app_or in Hi as [Hi|[Hi|[]]].
+        -- destruct (Hm _ _ _ Hi) as (cc & Hcc). exists cc. rewrite lookup_update_other; [exact Hcc|].
+           apply app_root_neq. intro X. destruct (Hc _ Hi) as [Hc1 _]. apply (Hc1 Logic.I). cbn [path_of]. rewrite <- X. apply pfx_refl.
+        -- injection Hi as <- <- <-. exists c. apply lookup_update_same.
+    + exists t, lg. split; [reflexivity|]. split; [exact Hok|].
+      intros ns' c' md' Hi. apply in_app_or in Hi as [Hi|[Hi|[]]]; [now apply (Hm _ _ _ Hi)|discriminate Hi].
+  - rewrite (enclosed_dirname _ Hp), (split_dirname _ Hp).
+    destruct mo as [md|].
+    + assert (Hd : forall k, (1 <= k <= length ns)%nat -> is_dir t (root ++ firstn k ns)).
+      { intros k Hk. apply (tk_dirs _ _ _ Hok (IDir ns None) k Hin_x Hk). right. exact (fun f => f). }
+      destruct (Hd (length ns)) as [m0 Hl0]; [destruct ns; [contradiction|cbn [length]; lia]|]. rewrite firstn_all in Hl0.
+      rewrite (chmod_dir_spec t root ns md lg m0 Hgb Hd Hl0). cbn [fst snd].
+      eexists. eexists. split; [reflexivity|]. split.
+      * exact (shape_same_kind root _ _ items (same_kind_update_dir t _ m0 _ Hl0) Hok).
+      * intros ns' c' md' Hi. apply in_app_or in Hi as [Hi|[Hi|[]]]; [|discriminate Hi].
+        destruct (Hm _ _ _ Hi) as (cc & Hcc). exists cc. rewrite lookup_update_other; [exact Hcc|].
+        intro X. rewrite X in Hl0. rewrite Hl0 in Hcc. discriminate.
+    + exists t, lg. split; [reflexivity|]. split; [exact Hok|].
+      intros ns' c' md' Hi. apply in_app_or in Hi as [Hi|[Hi|[]]]; [now apply (Hm _ _ _ Hi)|discriminate Hi].
+Qed.
+
+Lemma smeta_items root items : forall todo done t lg,
+  tree_ok root t (map strip_mode items) -> (forall x, In x todo -> In x items) -> Forall (fun x => plain (path_of x)) todo ->
+  modes_done root t done -> (forall d x, In d done -> In x todo -> compat d x) -> ForallOrdPairs compat todo ->
+  exists t' lg', sextract_metas root (t, lg) (map meta_of todo) = ((t', lg'), XOk) /\
+                 tree_ok root t' (map strip_mode items) /\ modes_done root t' (done ++ todo).
+Proof.
+  induction todo as [|x r IH]; intros done t lg Hok Hsub Hpl Hm Hc Hpairs.
+  - exists t, lg. cbn [map sextract_metas]. rewrite app_nil_r. auto.
+  - inversion Hpairs as [|? ? Hx Hr]; subst. inversion Hpl as [|? ? Hpx Hpr]; subst.
+    destruct (smeta_step root t lg items done x Hok (Hsub x (or_introl eq_refl)) Hpx Hm (fun d Hd => Hc d x Hd (or_introl eq_refl)))
+      as (t1 & lg1 & E1 & Hok1 & Hm1).
+    destruct (IH (done ++ [x]) t1 lg1 Hok1 (fun y Hy => Hsub y (or_intror Hy)) Hpr Hm1) as (t' & lg' & E & Hok' & Hm'); [|exact Hr|].
+    + intros d y Hd Hy. apply in_app_or in Hd as [Hd|[<-|[]]]; [apply Hc; [exact Hd|now right]|]. rewrite Forall_forall in Hx. now apply Hx.
+    + exists t', lg'. cbn [map sextract_metas]. unfold meta_of at 1. cbn [fst snd] in E1. 
+      change (sextract_meta root (t, lg) (x_name (entry_of x)) (mode_of x)) with (sextract_meta root (t, lg) (fst (meta_of x)) (snd (meta_of x))).
+      rewrite E1, E. split; [reflexivity|]. split; [exact Hok'|]. now rewrite <- app_assoc in Hm'.
+Qed.
+
+(* both phases of the streaming extractor on a consistent archive of plain entries *)
+Theorem sextract_plain_archive umask root t0 lg0 items :
+  (forall rel, rel <> [] -> lookup t0 (root ++ rel) = None) ->
+  ForallOrdPairs compat items -> Forall (fun x => plain (path_of x)) items ->
+  exists t1 lg1 t' lg',
+    sextract_files umask root (t0, lg0) (map entry_of items) = ((t1, lg1), XOk) /\
+    sextract_metas root (t1, lg1) (map meta_of items) = ((t', lg'), XOk) /\ tree_ok root t' items.
+Proof.
+  intros He Hp Hpl.
+  destruct (sextract_plain_files umask root t0 lg0 items He Hp Hpl) as (t1 & lg1 & E1 & Hok1).
+  destruct (smeta_items root items items [] t1 lg1 Hok1 (fun x H => H) Hpl (fun _ _ _ H => False_ind _ H) (fun d x Hd => False_ind _ Hd) Hp)
+    as (t' & lg' & E2 & Hok2 & Hm2).
+  exists t1, lg1, t', lg'. split; [exact E1|]. split; [exact E2|]. cbn [app] in Hm2.
+  destruct Hok2 as [H1 H2 H3]. constructor.
+  - intros ns c mo Hi. destruct (H1 ns c None (in_strip _ _ Hi)) as (m & Hl & _). exists m. split; [exact Hl|].
+    intros md ->. destruct (Hm2 _ _ _ Hi) as (cc & Hcc). rewrite Hl in Hcc. now injection Hcc.
+  - intros i k Hi Hk Hc. specialize (H2 (strip_mode i) k (in_strip _ _ Hi)). destruct i; cbn [strip_mode path_of is_file] in *; now apply H2.
+  - intros rel Hrel Hl. destruct (H3 rel Hrel Hl) as (i & k & Hi & Hk & Er). apply in_map_iff in Hi as (z & <- & Hz).
+    exists z, k. destruct z; cbn [strip_mode path_of] in *; auto.
+Qed.
